@@ -180,6 +180,7 @@ type env struct {
 	cons     [nVals]sdk.ConsAddress
 	thorough bool
 	maxBig   int
+	maxBigPos int // Adv2000 only among the first maxBigPos operations of a path
 	maxRaise int
 	desc     string
 }
@@ -591,13 +592,15 @@ func (e *env) ops(n *explore.Node) []explore.Op {
 			add(fmt.Sprintf("Unjail(v%d)", v), func(ctx *sdk.Context, g *ghost) *explore.Fail { return e.unjail(ctx, g, v) })
 		} else {
 			add(fmt.Sprintf("Jail(v%d)", v), func(ctx *sdk.Context, g *ghost) *explore.Fail { return e.jail(ctx, g, v) })
-			add(fmt.Sprintf("SJail(v%d)", v), func(ctx *sdk.Context, g *ghost) *explore.Fail { return e.sjail(ctx, g, v) })
+			if e.thorough || v < 2 {
+				add(fmt.Sprintf("SJail(v%d)", v), func(ctx *sdk.Context, g *ghost) *explore.Fail { return e.sjail(ctx, g, v) })
+			}
 		}
 	}
 	add("Adv1", func(ctx *sdk.Context, g *ghost) *explore.Fail { return e.advance(ctx, g, 1) })
 	add("AdvTo10", func(ctx *sdk.Context, g *ghost) *explore.Fail { return e.advSweep(ctx, g) })
 	add("Adv31", func(ctx *sdk.Context, g *ghost) *explore.Fail { return e.advance(ctx, g, refGrace+1) })
-	if g.BigAdv < e.maxBig {
+	if g.BigAdv < e.maxBig && len(n.Path) < e.maxBigPos {
 		add("Adv2000", func(ctx *sdk.Context, g *ghost) *explore.Fail { g.BigAdv++; return e.advance(ctx, g, refTTL) })
 	}
 	if mi >= 1 && g.Raises < e.maxRaise && mi+2 < len(versions) {
@@ -720,10 +723,11 @@ func newEnv(r *report.Run, j job) *env {
 			panic(err)
 		}
 	}
-	e.maxBig, e.maxRaise = 1, 1
+	e.maxBig, e.maxBigPos, e.maxRaise = 1, 2, 1
 	if e.thorough {
-		e.maxBig, e.maxRaise = 2, 2
+		e.maxBig, e.maxBigPos, e.maxRaise = 2, 4, 2
 	}
+	e.maxBigPos = envInt("VERIF_C12_BIGPOS", e.maxBigPos)
 	var as []string
 	for _, v := range w.Vals {
 		as = append(as, fmt.Sprintf("%x", []byte(v.ValAddr)))
@@ -734,7 +738,7 @@ func newEnv(r *report.Run, j job) *env {
 
 // setup drives the world with the same step functions (oracle on) to the
 // initial node: block 2999, every validator alive until 3009.
-func (e *env) setup() (main *explore.Node, at1009 *explore.Node, f *explore.Fail) {
+func (e *env) setup() (main []*explore.Node, at1009 *explore.Node, f *explore.Fail) {
 	ctx := world.Fork(e.w.Root)
 	g := &ghost{Min: e.minVersion(ctx)}
 	for v := range g.V {
@@ -760,10 +764,29 @@ func (e *env) setup() (main *explore.Node, at1009 *explore.Node, f *explore.Fail
 	// a fork reads through to its parent: freeze this context and continue on a child
 	mid := &explore.Node{Ctx: ctx, Ghost: g.Clone()}
 	ctx = world.Fork(ctx)
+	// second initial node: staggered expiries v0,v1: 3009, v2: 3011, v3: 3010
+	ctxB, gB := world.Fork(ctx), g.Clone().(*ghost)
 	if f := e.advance(&ctx, g, 1990); f != nil {
 		return nil, nil, f
 	}
-	return &explore.Node{Ctx: ctx, Ghost: g}, mid, nil
+	main = append(main, &explore.Node{Ctx: ctx, Ghost: g})
+	if f := e.advance(&ctxB, gB, 1); f != nil {
+		return nil, nil, f
+	}
+	if f := e.keepAlive(&ctxB, gB, 3, versions[1]); f != nil {
+		return nil, nil, f
+	}
+	if f := e.advance(&ctxB, gB, 1); f != nil {
+		return nil, nil, f
+	}
+	if f := e.keepAlive(&ctxB, gB, 2, versions[1]); f != nil {
+		return nil, nil, f
+	}
+	if f := e.advance(&ctxB, gB, 1988); f != nil {
+		return nil, nil, f
+	}
+	main = append(main, &explore.Node{Ctx: ctxB, Ghost: gB, Path: []string{"<staggered>"}})
+	return main, mid, nil
 }
 
 // ladder seeds: v3 jailed k times in direct succession through the valset
@@ -842,7 +865,7 @@ func (e *env) specs(sub, nsub int, deadline time.Time) (mainSpec, ladderSpec exp
 			return mainSpec, ladderSpec, f
 		}
 	}
-	mainSpec = explore.Spec{Name: "main;" + e.j.String(), Init: []*explore.Node{init}, Ops: e.ops, Hash: e.hash,
+	mainSpec = explore.Spec{Name: "main;" + e.j.String(), Init: init, Ops: e.ops, Hash: e.hash,
 		MaxDepth: depth, Deadline: deadline, ShardDepth: 2, Shard: sub, NShards: nsub}
 	ladderSpec = explore.Spec{Name: "ladder;" + e.j.String(), Init: seeds, Ops: e.ops, Hash: e.hash,
 		MaxDepth: ldepth, Deadline: deadline}
